@@ -7,6 +7,7 @@ import QV.Driver.Color
 import QV.Driver.Layout
 import QV.Driver.Names
 import QV.Driver.FormTree
+import QV.Driver.Xml
 
 open QV
 
@@ -31,6 +32,9 @@ def dispatch (req : Sexp) : Sexp :=
   | .list (.atom "spec-names" :: args) => Driver.Names.handleSpec args
   | .list (.atom "formtree" :: args) => Driver.FormTree.handleModel args
   | .list (.atom "spec-formtree" :: args) => Driver.FormTree.handleSpec args
+  | .list (.atom "xmltext" :: args) => Driver.Xml.handleModel false args
+  | .list (.atom "xmlattr" :: args) => Driver.Xml.handleModel true args
+  | .list (.atom "spec-xmlread" :: args) => Driver.Xml.handleSpec args
   | _ => .list [.atom "bad-request"]
 
 partial def loop (h : IO.FS.Stream) (out : IO.FS.Stream) : IO Unit := do
